@@ -44,6 +44,9 @@ fn main() {
     watchdog(wd, id.clone());
     let mut ctx = Ctx::new(&id, tier, seed, replay);
     match id.as_str() {
+        "C01" => vlib::routing::run(&mut ctx, vlib::routing::Mode::C01),
+        "C03" => vlib::c03::run(&mut ctx),
+        "C04" => vlib::routing::run(&mut ctx, vlib::routing::Mode::C04),
         "C05" => vlib::c05::run(&mut ctx),
         "C13" => vlib::c13::run(&mut ctx),
         _ => {
